@@ -829,6 +829,5 @@ func (d *DTable) describe() []string {
 	return out
 }
 
-
 // noInlinePredicates: predicates that rules recognise by identity in guards; they stay calls.
 var noInlinePredicates = map[string]bool{"transactionShouldComplete": true, "isNextStateID": true, "empty": true, "executeResponseIsSuccessful": true}
